@@ -1,8 +1,9 @@
 #!/bin/sh
-# run every claimed check once (tier $1, default quick) and print one line per property
+# run every claimed check once (tier $1, default quick; PROPS="C01 C02" restricts) and print one line per property
 HERE="$(cd "$(dirname "$0")/.." && pwd)"; cd "$HERE"
 TIER="${1:-quick}"
-for p in $(python3 -c "import json;print(' '.join(c['property_id'] for c in json.load(open('MANIFEST.json'))['checks']))"); do
+PROPS="${PROPS:-$(python3 -c "import json;print(' '.join(c['property_id'] for c in json.load(open('MANIFEST.json'))['checks']))")}"
+for p in $PROPS; do
   t0=$(date +%s)
   out=$(./check $p --tier $TIER 2>&1); rc=$?
   t1=$(date +%s)
